@@ -620,3 +620,8 @@ impl<T: Deref<Target = [Cell<Value>]>> ReadHandle<'_, T> {
         was_stale
     }
 }
+
+#[cfg(kani)]
+pub(crate) mod verif_kani {
+    include!(concat!(env!("EGGLOG_VERIF_DIR"), "/kani/cr_rowbuf.rs"));
+}
